@@ -214,6 +214,7 @@ fn panic_class(msg: &str) -> String {
 }
 
 const HANG_SECS: u64 = 6;
+const MAX_HANGS: u64 = 12;
 
 #[derive(Default)]
 struct Beat {
@@ -393,6 +394,12 @@ pub fn run_jobs(jobs: Vec<Job>, threads: usize) -> Report {
           } else {
             t.hung.push(format!("{} choices {:?}", job.name, prefix));
           }
+        }
+        let hung_so_far = sh.total.lock().unwrap().hung_execs;
+        if hung_so_far >= MAX_HANGS {
+          // every further hang costs a full watchdog period: stop handing out
+          // scenarios (reported as a capped, non-exhaustive run)
+          sh.next.store(sh.jobs.len(), Ordering::SeqCst);
         }
         spawn_worker(&sh);
       }
